@@ -1,0 +1,32 @@
+//go:build verif
+
+/*
+ * Licensed to the Apache Software Foundation (ASF) under one or more
+ * contributor license agreements.  See the NOTICE file distributed with
+ * this work for additional information regarding copyright ownership.
+ * The ASF licenses this file to You under the Apache License, Version 2.0
+ * (the "License"); you may not use this file except in compliance with
+ * the License.  You may obtain a copy of the License at
+ *
+ *     http://www.apache.org/licenses/LICENSE-2.0
+ *
+ * Unless required by applicable law or agreed to in writing, software
+ * distributed under the License is distributed on an "AS IS" BASIS,
+ * WITHOUT WARRANTIES OR CONDITIONS OF ANY KIND, either express or implied.
+ * See the License for the specific language governing permissions and
+ * limitations under the License.
+ */
+
+package datasource
+
+// Verification contracts (comment-only, tag verif) for property C09, value equality: the comparison the
+// undo executors use to decide whether a foreign writer touched a row treats TEXT as text - two
+// strings are equal only if they are the same string (never "numerically equal": '02134' and '2134',
+// '1.50' and '1.5' are different column values). reflect is modelled as far as this function uses it
+// (Kind as a function of the dynamic type, DeepEqual on two strings as string equality).
+//@ ext strconv.ParseFloat
+//@   ensures true
+//@ func DeepEqual
+//@   prop C09
+//@   ensures text-is-compared-as-text: x != nil && y != nil && isT(x, string) && isT(y, string) ==> result == (x.(string) == y.(string))
+//@   may_panic
